@@ -371,8 +371,9 @@ def main(argv):
         wall_s=round(wall, 2),
         violations=len(out_violations),
     )
-    os.makedirs(os.path.join(VERIF, 'evidence'), exist_ok=True)
-    with open(os.path.join(VERIF, 'evidence', f'{prop_id}.json'), 'w') as f:
+    evdir = os.environ.get('VERIF_EVIDENCE_DIR') or os.path.join(VERIF, 'evidence')
+    os.makedirs(evdir, exist_ok=True)
+    with open(os.path.join(evdir, f'{prop_id}.json'), 'w') as f:
         json.dump(ev, f, indent=1, sort_keys=True, default=str)
     print(f'{prop_id} {tier} seed={base_seed}: evaluations={total.evaluations} distinct_nontrivial={len(total.nontrivial)} '
           f'violations={len(out_violations)} wall={wall:.1f}s')
